@@ -152,15 +152,7 @@ func (t *fnTrans) call(ins ssa.Instruction, c *ssa.CallCommon, res ssa.Value) {
 	for k, v := range env.vars {
 		env.oldVars[k] = v
 	}
-	t.applyModifies(ct, env, oldSt)
-	// allocation may have happened
-	if !ct.Pure {
-		oldTop := t.top(oldSt)
-		nt := t.heapHavoc(t.st, "$top", "Int")
-		t.assume(le(oldTop, nt))
-	}
-	env.cur = t.st
-	// results
+	// results (declared before the havoc so that modifies clauses may mention them)
 	var rv Val
 	if sig.Results().Len() > 0 {
 		var RT types.Type = sig.Results()
@@ -175,8 +167,18 @@ func (t *fnTrans) call(ins ssa.Instruction, c *ssa.CallCommon, res ssa.Value) {
 		if res != nil {
 			t.vals[res] = rv
 		}
-		t.assume(t.valueFacts(t.st, rv))
 		bindResults(env, ct, sig, rv)
+	}
+	t.applyModifies(ct, env, oldSt)
+	// allocation may have happened
+	if !ct.Pure {
+		oldTop := t.top(oldSt)
+		nt := t.heapHavoc(t.st, "$top", "Int")
+		t.assume(le(oldTop, nt))
+	}
+	env.cur = t.st
+	if rv.T != nil {
+		t.assume(t.valueFacts(t.st, rv))
 	}
 	for _, cl := range ct.Ensures {
 		if cl.Known != "" {
@@ -802,15 +804,26 @@ func (t *fnTrans) ret(x *ssa.Return) {
 		bindResults(env, t.ct, sig, Val{RT, comps})
 	}
 	for i, cl := range t.ct.Ensures {
-		f := env.evalBool(cl.Expr)
 		label := cl.Label
 		if label == "" {
 			label = fmt.Sprintf("%d", i+1)
 		}
-		ob := t.oblig("post", x, label, f, "ensures "+cl.Text)
-		if ob != nil {
-			ob.Tags = cl.Tags
-			ob.Known = cl.Known
+		parts := splitConj(cl.Expr)
+		for pi, pe := range parts {
+			f := env.evalBool(pe)
+			lb := label
+			desc := "ensures " + cl.Text
+			if len(parts) > 1 {
+				lb = fmt.Sprintf("%s.%d", label, pi+1)
+				desc = "ensures (part) " + exprString(pe)
+			}
+			ob := t.oblig("post", x, lb, f, desc)
+			if ob != nil {
+				ob.Tags = cl.Tags
+				ob.Known = cl.Known
+				ob.Clause = cl
+				ob.Part = pe
+			}
 		}
 	}
 	for _, e := range env.errs {
@@ -888,6 +901,27 @@ func (t *fnTrans) frameCheck(x *ssa.Return, env *specEnv) {
 		}
 		t.oblig("frame", x, hn, f, "only declared locations of "+hn+" are modified")
 	}
+}
+
+// splitConj splits  A ==> (B && C)  into  A ==> B,  A ==> C  (and top-level conjunctions likewise).
+func splitConj(x ast.Expr) []ast.Expr {
+	switch n := x.(type) {
+	case *ast.ParenExpr:
+		return splitConj(n.X)
+	case *ast.BinaryExpr:
+		if n.Op.String() == "&&" {
+			return append(splitConj(n.X), splitConj(n.Y)...)
+		}
+	case *ast.CallExpr:
+		if id, ok := n.Fun.(*ast.Ident); ok && id.Name == "implies" && len(n.Args) == 2 {
+			var out []ast.Expr
+			for _, c := range splitConj(n.Args[1]) {
+				out = append(out, &ast.CallExpr{Fun: id, Args: []ast.Expr{n.Args[0], c}})
+			}
+			return out
+		}
+	}
+	return []ast.Expr{x}
 }
 
 func sortStrings(s []string) {
